@@ -271,7 +271,7 @@ impl Property for C17 {
             Family::enumerated("var-limit", var_cases(tier)),
             Family::enumerated("depth-limit", depth_cases(tier)),
             Family::enumerated("flat-length", flat_cases(tier)),
-            Family::random("depth-mixed", tier.n(1500, 20_000), fam_mixed),
+            Family::random("depth-mixed", tier.n(6_000, 20_000), fam_mixed),
         ]
     }
     fn judge(&self, case: &Case, _strict: bool) -> Verdict {
